@@ -202,3 +202,42 @@ func VP_C08_chunk_light() {
 	_ = err
 	vp.Cover("end")
 }
+
+// every palette kind with an arbitrary declared palette length: the
+// bits-per-entry byte is chosen concretely (so that the room each kind reserves
+// is concrete: 16 values for linear palettes, 1<<bits for hash palettes), the
+// length prefix is any int32, a few arbitrary bytes follow. The arbitrary-bytes
+// harnesses above reach hash palettes only up to the size bound.
+func VP_C08_palette_kinds() {
+	vp.SizeBound(8)
+	var s []byte
+	states := vp.Choice(2) == 0
+	var bits byte
+	if states {
+		bits = []byte{0, 1, 4, 5, 6, 7, 8, 9, 15, 200}[vp.Choice(10)]
+	} else {
+		bits = []byte{0, 1, 2, 3, 4, 6, 200}[vp.Choice(7)]
+	}
+	s = append(s, bits)
+	s = append(s, vpVarInt5(vp.Int32())...) // palette length (or the single value)
+	s = append(s, vp.Bytes(vp.Choice(4))...)
+	r := bytes.NewReader(s)
+	used := vp.Choice(2) == 1
+	if states {
+		c := NewStatesPaletteContainer(16, 0)
+		if used {
+			c.Set(1, 5)
+			c.Set(2, 6)
+		}
+		c.ReadFrom(r)
+	} else {
+		c := NewBiomesPaletteContainer(8, 0)
+		if used {
+			c.Set(1, 5)
+			c.Set(2, 6)
+			c.Set(3, 7)
+		}
+		c.ReadFrom(r)
+	}
+	vp.Cover("end")
+}
